@@ -95,6 +95,8 @@ pub struct Backend {
     pub key_text: fn(&str, &[u8]) -> R<String>,
     /// Key::from_str then re-encode, by kind
     pub key_parse: fn(&str, &str) -> R<Vec<u8>>,
+    /// Key::from_str then Display (of the key, or of its exposed text), by kind incl. the PKE kinds
+    pub key_reprint: fn(&str, &str) -> R<String>,
     pub pw_prefix_len: usize,
     pub pw_param_off: usize,
     pub pw_param_len: usize,
@@ -342,6 +344,19 @@ macro_rules! backend {
                 })
             })
         }
+        fn key_reprint(kind: &str, s: &str) -> R<String> {
+            let kind = kind.to_string();
+            guard(|| {
+                Ok(match kind.as_str() {
+                    "local" => Key::<$V, Local>::from_str(s)?.expose_key().to_string(),
+                    "public" => Key::<$V, Public>::from_str(s)?.to_string(),
+                    "secret" => Key::<$V, Secret>::from_str(s)?.expose_key().to_string(),
+                    "pke-public" => Key::<$V, paseto_core::version::PkePublic>::from_str(s)?.expose_key().to_string(),
+                    "pke-secret" => Key::<$V, paseto_core::version::PkeSecret>::from_str(s)?.expose_key().to_string(),
+                    other => panic!("kind {other}"),
+                })
+            })
+        }
         fn _bounds()
         where
             $V: SealingVersion<Local> + SealingVersion<Public> + UnsealingVersion<Local> + UnsealingVersion<Public>,
@@ -379,6 +394,7 @@ macro_rules! backend {
             key_id,
             key_text,
             key_parse,
+            key_reprint,
             pw_prefix_len: $pl,
             pw_param_off: $po,
             pw_param_len: $pn,
